@@ -1,6 +1,7 @@
 # sha_ref.py - offline checker for C17: recomputes every recorded digest / MAC with hashlib / hmac (stdlib) and compares.
 # Record lines written by harness/h_sha.cpp:
 #   H <msg hex> <digest hex>        P <s> <len> <digest hex>        M <key hex> <msg hex> <mac hex>        N <ks> <klen> <ms> <mlen> <mac hex>        V <name> <hex>
+#   A <class> <key hex> <msg hex> <mac hex>    G <class> <msg hex> <digest hex>     results of calls whose result buffer overlapped an input buffer (inputs as before the call)
 import hashlib, hmac, os
 from . import core
 from .core import HarnessFailure
@@ -85,7 +86,7 @@ def key_class(n):
 def post(ctx):
     self_check()
     stats = ctx.extra_cov.setdefault('_stats', {})
-    n_h = n_p = n_m = n_v = 0
+    n_h = n_p = n_m = n_v = n_a = 0
     seen_vectors = set()
     bad = {}   # key -> (text, msg)
 
@@ -128,6 +129,20 @@ def post(ctx):
                             if want != f_[5]:
                                 report('Sha256.hmac/%s/mac-differs-from-RFC-2104' % key_class(len(key)), line,
                                        'pattern key s=%s of %d bytes, pattern message s=%s of %d bytes: library MAC %s, hmac module %s' % (f_[1], len(key), f_[3], len(msg), f_[5], want))
+                        elif f_[0] == 'A' and len(f_) == 5:
+                            key, msg = bytes.fromhex(f_[2]), bytes.fromhex(f_[3])
+                            want = hmac.new(key, msg, hashlib.sha256).hexdigest()
+                            n_a += 1
+                            if want != f_[4]:
+                                report('Sha256.hmac/%s/mac-differs-from-RFC-2104' % f_[1], line,
+                                       'result buffer overlapping an input; key of %d bytes, message of %d bytes (as before the call): library MAC %s, hmac module %s' % (len(key), len(msg), f_[4], want))
+                        elif f_[0] == 'G' and len(f_) == 4:
+                            msg = bytes.fromhex(f_[2])
+                            want = hashlib.sha256(msg).hexdigest()
+                            n_a += 1
+                            if want != f_[3]:
+                                report('Sha256.hash/%s/digest-differs-from-FIPS-180-4' % f_[1], line,
+                                       'result buffer inside the data buffer; message of %d bytes (as before the call): library digest %s, hashlib %s' % (len(msg), f_[3], want))
                         elif f_[0] == 'V' and len(f_) == 3:
                             if f_[1] not in VECTORS:
                                 raise HarnessFailure('sha_ref: unknown vector name %s in %s' % (f_[1], path))
@@ -143,12 +158,13 @@ def post(ctx):
                         raise HarnessFailure('sha_ref: malformed record %s:%d (%s)' % (path, ln, e))
     for key, (line, msg) in sorted(bad.items()):
         name = '%s.offline.%s.txt' % (ctx.prop, ''.join(c if c.isalnum() else '_' for c in key)[:80])
-        rp = core.write_replay(name, 'key=%s\nmsg=%s\nchecker=vlib/sha_ref.py (hashlib/hmac)\nrecord (H msg digest | P s len digest | M key msg mac | V name value):\n%s\n' % (key, msg, line[:20000]))
+        rp = core.write_replay(name, 'key=%s\nmsg=%s\nchecker=vlib/sha_ref.py (hashlib/hmac)\nrecord (H msg digest | P s len digest | M key msg mac | V name value | A class key msg mac | G class msg digest):\n%s\n' % (key, msg, line[:20000]))
         ctx.violations.append((key, rp, msg))
     stats['offline_digests_compared'] = n_h + n_p
     stats['offline_long_pattern_digests'] = n_p
     stats['offline_macs_compared'] = n_m
     stats['offline_vectors_compared'] = n_v
+    stats['offline_aliased_results_compared'] = n_a
     ctx.extra_cov['offline_counts'] = {k: v for k, v in stats.items() if k.startswith('offline_')}
     ctx.extra_cov['offline_checker'] = 'vlib/sha_ref.py: hashlib.sha256 / hmac.new(..., sha256); reference self-checked against %d published vectors (FIPS 180-4 examples, RFC 4231)' % len(VECTORS)
     ctx.extra_cov['published_vectors_seen'] = sorted(seen_vectors)
